@@ -244,3 +244,4 @@ def check(ctx, rep):
     _check_main(ctx, rep)
     metarules.frozen_error_bases(ctx, rep, "C07.EXC")
     metarules.missing_default_contradiction(ctx, rep, "C07.INH")
+    metarules.for_class_rule(ctx, rep, "C07.META", ("mro",))
